@@ -46,6 +46,14 @@ try:
         for tc in ET.parse(xml).getroot().iter("testcase"):
             if not any(c.tag in ("failure", "error", "skipped") for c in tc):
                 passed.add(tc.get("classname") + "::" + tc.get("name"))
+        missing = sorted(stable - passed)
+        # load-sensitive tests (e.g. test_cb::test_cbcheck_determinate, test_fdepsd::test_fdepsd_absacce): re-run alone
+        for t in missing[:4]:
+            mod, name = t.split("::")
+            rc2, o2 = run("/venv/bin/python -m pytest -q -p no:cacheprovider --timeout=900 %s.py::%s" % (mod.replace(".", "/"), name), cwd=wt, timeout=900)
+            if rc2 == 0:
+                passed.add(t)
+                out.setdefault("passed_when_rerun_alone", []).append(t)
         out["suite_baseline_passing"] = len(stable & passed)
         out["suite_missing"] = sorted(stable - passed)[:10]
         os.remove(xml)
